@@ -210,6 +210,7 @@ func init() {
 		modO := AlphaOpts{RespKinds: []string{"ok", "bad"}, ModOps: []string{"mpause", "mstart"}, ModUpdates: []CtxUpdate{{Name: "thr2", Threshold: 2}, {Name: "thr1", Threshold: 1}}}
 		runs := []RunSpec{
 			{Name: "life-eligibility", Sc: scLife(defaultParams(), []Template{tOne, tRep2, tPoor}, eo, d, b, m), Oracles: o},
+			{Name: "provider-listed-twice", Sc: withFunds(scLife(defaultParams(), []Template{tDupProv, tOne}, AlphaOpts{RespKinds: []string{"ok"}, BindOps: []Action{actDisable("a", "P2", "O2")}}, d-2, b, m), 40, 5), Oracles: o},
 			{Name: "life-eligibility-flipped-ids", Sc: flip(scLife(defaultParams(), []Template{tRep2, tLong}, eo, d, b, m)), Oracles: o},
 			{Name: "mod-thresholds", Sc: scMod(defaultParams(), []Template{tMod2, tModCap, tModPoor}, modO, d-1, b, m), Oracles: o},
 			{Name: "price-fraction-at-cap", Sc: scPrice(paramSet("0.1", "0.001"), "p3t", "p1", []Template{tCapLow, tOne}, AlphaOpts{RespKinds: []string{"ok"}}, d-1, b, m), Oracles: o},
@@ -235,7 +236,7 @@ func init() {
 	register(&CheckSpec{Prop: "C07", Runs: func(tier string) []RunSpec {
 		d, b, m := bump(tier, 8, 5, 2)
 		o := []Oracle{oracleC07{}}
-		po := AlphaOpts{RespKinds: []string{"ok", "bad"}, BindOps: []Action{actUpdate("a", "P1", "O1", 0, "p1t", 0), actUpdate("a", "P2", "O2", 0, "p3vv", 0), actUpdate("a", "P1", "O1", 0, "p4tr", 0), actDisable("a", "P1", "O1"), actEnable("a", "P1", "O1", 0)}}
+		po := AlphaOpts{RespKinds: []string{"ok", "bad"}, BindOps: []Action{actUpdate("a", "P1", "O1", 0, "p4vd", 0), actUpdate("a", "P1", "O1", 0, "p1t", 0), actUpdate("a", "P2", "O2", 0, "p3vv", 0), actUpdate("a", "P1", "O1", 0, "p4tr", 0), actDisable("a", "P1", "O1"), actEnable("a", "P1", "O1", 0)}}
 		runs := []RunSpec{
 			{Name: "price-volume", Sc: withFunds(scPrice(paramSet("0.1", "0.001"), "p2v", "p3vv", []Template{tRep2, tLong, tSuper}, po, d, b, m), 30, 5), Oracles: o, Mon: MonFlags{Vol: true}},
 			{Name: "price-time+subunit", Sc: withFunds(scPrice(paramSet("0.1", "0.001"), "p4t", "p1v", []Template{tRep2, tInf}, po, d, b, m), 30, 5), Oracles: o, Mon: MonFlags{Vol: true}},
@@ -279,6 +280,8 @@ func init() {
 		runs = append(runs, RunSpec{Name: "mod-reentrant", Sc: scModReentrant(defaultParams(), []Template{tMod1, tMod2, tModPoor},
 			AlphaOpts{RespKinds: []string{"ok", "bad"}, ModOps: []string{"mpause", "mstart"}}, d, b, m), Oracles: []Oracle{oracleC09{}}})
 		runs = append(runs, tightBalanceRun([]Oracle{oracleC09{}}, d, b, m))
+		// an input whose text is not valid UTF-8 (refused by the unmodified module), and a restart along the way
+		runs = append(runs, RunSpec{Name: "input-not-utf8+restart", Sc: restartable(withFunds(scLife(paramSet("0.1", "0.001"), []Template{tBadUTF8, tRep2}, AlphaOpts{RespKinds: []string{"ok"}, CtxOps: []string{"pause", "start"}}, d-2, b, m), 40, 5)), Oracles: []Oracle{oracleC09{}}})
 		runs = append(runs, twoContextsOneUnaffordableRuns([]Oracle{oracleC09{}}, d-2, b-1, m)...)
 		for _, fl := range []bool{false, true} {
 			sc := scModPauseSiblings(defaultParams(), []Template{tModPoor, tMod1, tMod2}, AlphaOpts{RespKinds: []string{"ok"}, ModOps: []string{"mstart"}}, d-1, b-1, m)
@@ -336,7 +339,7 @@ func init() {
 				{Name: "t62rep", Consumer: "C1", Service: "a", Providers: []string{"P2"}, Cap: 5, Timeout: 1 << 62, Repeated: true, Freq: 0, Total: 2}}
 			runs = append(runs, RunSpec{Name: "gov-max-timeout-extremes", Sc: withFunds(scLife(paramSet("0.1", "0.001"), tm, AlphaOpts{RespKinds: []string{"ok"}, CtxOps: []string{"pause", "start"}, ParamChanges: []ParamSet{g, g62}}, 6, 4, 3), 40, 5), Oracles: o})
 		}
-		runs = append(runs, modSelfStartRun(o, MonFlags{}, d-1, b, m))
+		runs = append(runs, modSelfStartRun(o, MonFlags{}, d-1, b, m), timeoutBoundariesRun(o, MonFlags{}))
 		// the owning module answers the failed batch of one context by starting its other (paused) contexts (both processing orders)
 		for _, fl := range []bool{false, true} {
 			sc := scMod(paramSet("0.1", "0.001"), []Template{tModGap2, tMod2}, AlphaOpts{RespKinds: []string{"ok"}, ModOps: []string{"mpause"}}, d-1, b, m)
@@ -361,6 +364,7 @@ func init() {
 		runs = append(runs, modSelfStartRun(o, MonFlags{CB: true}, d, b+1, m))
 		runs = append(runs, twoCreatesRun(o, MonFlags{CB: true}, d-1, b-1, m))
 		runs = append(runs, RunSpec{Name: "batch-counter-255", Sc: scCounter255(paramSet("0.1", "0.001"), 7, 5, 2), Oracles: o, Mon: MonFlags{CB: true}})
+		runs = append(runs, timeoutBoundariesRun(o, MonFlags{CB: true}))
 		return runs
 	}})
 	register(&CheckSpec{Prop: "C13", Runs: func(tier string) []RunSpec {
@@ -433,6 +437,7 @@ func init() {
 			AlphaOpts{RespKinds: []string{"ok", "bad"}, ModOps: []string{"mpause", "mstart"}}, d, b, m), Oracles: []Oracle{oracleC16{}}, Mon: MonFlags{Kill: true}})
 		runs = append(runs, twoCreatesRun([]Oracle{oracleC16{}}, MonFlags{Kill: true}, d-1, b-1, m))
 		runs = append(runs, RunSpec{Name: "batch-counter-255", Sc: scCounter255(paramSet("0.1", "0.001"), 7, 5, 2), Oracles: []Oracle{oracleC16{}}, Mon: MonFlags{Kill: true}})
+		runs = append(runs, timeoutBoundariesRun([]Oracle{oracleC16{}}, MonFlags{Kill: true}))
 		return runs
 	}})
 	register(&CheckSpec{Prop: "C05", Runs: func(tier string) []RunSpec {
@@ -493,7 +498,12 @@ func init() {
 		return []RunSpec{
 			{Name: "names-queries", Sc: scNames(defaultParams(), 5+d, 3, 4), Oracles: o, Post: queryPost},
 			{Name: "life-queries", Sc: scLife(defaultParams(), []Template{tOne, tRep2, tLong}, lo, 6+d, 4, 2), Oracles: o, Post: queryPost},
-			{Name: "fees-queries", Sc: scFees(paramSet("0.1", "0.001"), false, 4+d, 3, 3), Oracles: o, Post: queryPost},
+			{Name: "fees-queries", Sc: func() *Scenario {
+				sc := scFees(paramSet("0.1", "0.001"), false, 4+d, 3, 3)
+				base := sc.Alpha
+				sc.Alpha = func(sc *Scenario, v *View) []Action { return append(base(sc, v), actSetW("O1", "FEE")) } // another module's account as withdrawal address
+				return sc
+			}(), Oracles: o, Post: queryPost},
 			{Name: "fees-queries-base-denom-changed", Sc: func() *Scenario {
 				// the records written before a change of the BaseDenom parameter are still what the queries must return
 				g := paramSet("0.1", "0.001")
@@ -520,6 +530,8 @@ func init() {
 			{Name: "life-ids-flipped", Sc: flip(scLife(defaultParams(), []Template{tCapLow, tLong}, eo, d, b, m)), Oracles: o},
 		}
 		runs = append(runs, runsOf(lifeRuns(tier), o, MonFlags{})...)
+		runs = append(runs, RunSpec{Name: "mod-two-creates-in-one-message", Sc: scMod(defaultParams(), []Template{tMod1, tModDup, tModP, tModDupP},
+			AlphaOpts{RespKinds: []string{"ok"}, ModOps: []string{"mstart"}}, d-2, b-1, m), Oracles: o})
 		return runs
 	}, Pure: keysAndIDs})
 	register(&CheckSpec{Prop: "C19", Runs: func(tier string) []RunSpec {
@@ -528,7 +540,7 @@ func init() {
 			d = 2
 		}
 		o := []Oracle{oracleC19{}}
-		mainO := AlphaOpts{RespKinds: []string{"ok", "bad"}, CtxOps: []string{"pause", "kill"}, Updates: []CtxUpdate{updTimeout3}, Withdraw: []string{"O1:P1"}, SetW: []string{"O1:W1", "XX:W1"}, // XX owns no binding
+		mainO := AlphaOpts{RespKinds: []string{"ok", "bad"}, CtxOps: []string{"pause", "kill"}, Updates: []CtxUpdate{updTimeout3, {Name: "cap0", CapZero: true}}, Withdraw: []string{"O1:P1"}, SetW: []string{"O1:W1", "XX:W1"}, // XX owns no binding; cap0: the fee cap given as 0stake
 			BindOps: []Action{actDisable("a", "P1", "O1"), actRefund("a", "P1", "O1"), actUpdate("a", "P2", "O2", 0, "p5", 0), actUpdate("a", "P2", "O2", 0, "p1te", 0)}} // p1te: a promotion that ends along the way
 		return []RunSpec{
 			{Name: "life-export-points", Sc: scLife(defaultParams(), []Template{tOne, tRep2, tPoor}, mainO, 6+d, 4, 2), Oracles: o, Post: genesisPost},
@@ -707,4 +719,11 @@ func twoContextsOneUnaffordableRuns(o []Oracle, d, b, m int) []RunSpec {
 		out = append(out, RunSpec{Name: fmt.Sprintf("two-contexts-one-unaffordable(flip=%v)", fl), Sc: sc, Oracles: o})
 	}
 	return out
+}
+
+// timeoutBoundariesRun: calls with a timeout of 0 and of -1, a module creating a context with a timeout of -3 (all
+// refused by the unmodified module), next to an ordinary one.
+func timeoutBoundariesRun(o []Oracle, mon MonFlags) RunSpec {
+	return RunSpec{Name: "timeout-zero-and-negative", Sc: withFunds(scMod(paramSet("0.1", "0.001"), []Template{tT0, tTneg, tModTneg, tOne},
+		AlphaOpts{RespKinds: []string{"ok"}}, 6, 4, 3), 40, 5), Oracles: o, Mon: mon}
 }
